@@ -3,6 +3,7 @@ import FormulaeModel.Model.Scanner
 import FormulaeModel.Model.Parser
 import FormulaeModel.Model.Matrices
 import FormulaeModel.Generated.Tables
+import FormulaeModel.Spec.C04
 /-
 Driver op "design": the evaluation model (Model/Design.lean, Model/Matrices.lean) on a formula,
 a frame, the coding decisions observed from the implementation, and new frames.
@@ -195,8 +196,40 @@ def newJson (t : Trained) (j : Json) (names : List (String × Val)) : Json :=
     | .error e => errTag e
   Json.mkObj [("common", common), ("group", group)]
 
+def matrixOfJson (j : Json) : Matrix :=
+  match j with
+  | .arr rows => rows.toList.map (fun r =>
+      match r with
+      | .arr es => es.toList.map (fun e => match e with | .null => none | x => ratOfJson? x)
+      | _ => [])
+  | _ => []
+
+/-- Spec.C04 on what the implementation returned: every column holds what its label says -/
+def specC04 (j : Json) : Json :=
+  let s := getStr j "formula"
+  match Scanner.scan s.toList with
+  | .error _ => errJ "scan"
+  | .ok ts =>
+    match Parser.parse Generated.parserTable ts with
+    | .error _ => errJ "parse"
+    | .ok e =>
+      let table := atomTable e
+      let frame := frameOfJson ((j.getObjVal? "frame").toOption.getD Json.null)
+      let names := namesOfJson ((j.getObjVal? "names").toOption.getD Json.null)
+      let env : Env := { frame, names }
+      let parts := (getArr j "parts").map (fun p =>
+        let labels := strList p "labels"
+        let m := matrixOfJson ((p.getObjVal? "matrix").toOption.getD Json.null)
+        match Spec.C04.check env table labels m with
+        | .ok v => Json.mkObj [("ok", v.ok), ("judged", v.judged), ("skipped", v.skipped),
+                               ("first_bad", match v.firstBad with | some l => Json.str l | none => Json.null),
+                               ("level_order_ok", Spec.C04.levelOrderOk env labels)]
+        | .error er => errTag er)
+      Json.mkObj [("parts", Json.arr parts.toArray)]
+
 def handle (op : String) (j : Json) : Option Json :=
   match op with
+  | "c04_spec" => some (specC04 j)
   | "design" =>
     let s := getStr j "formula"
     match Scanner.scan s.toList with
